@@ -2,22 +2,37 @@
 
 E1: signature alphabet (every unary `R f(A)` over 24 argument x 25 result types incl.
 long double and by-value structs/union, `R f(void)`, binary functions over an 8-type
-subset, two 6-argument functions) x mechanisms {ffi.callback of the compiled module's
-FFI, ffi.callback of an in-line FFI (decorator form), @ffi.def_extern} x error
-configurations {none, error=e, onerror->None (with and without error=), onerror->value,
-onerror raising} x Python bodies {return r for every r of the result alphabet
-(convertible and unconvertible), raise}.
+subset, three 6-argument functions, 15 further types -- enums, typedef'ed / stdint integer
+names, char16_t, char32_t, void *, char **, a function pointer -- as `X f(X)`,
+`long long f(X)`, `X f(long long)`, four wide signatures of 12-22 arguments)
+x mechanisms {ffi.callback of the compiled module's FFI, ffi.callback of an in-line FFI,
+@ffi.def_extern; direct and decorator form, cdecl as pointer and as function type,
+def_extern with and without name=, extern "Python" and extern "Python+C"; a callable whose
+repr() raises} x error configurations {none, error=e, onerror->None (with and without
+error=), onerror->value, onerror raising, onerror returning an unconvertible value / a
+half-convertible initialiser} x Python bodies {return r for every r of the result
+alphabet (convertible and unconvertible; Python natives, cdata of the same / a wider /
+another type, objects with __int__+__index__ / __float__), raise an Exception, a
+BaseException (KeyboardInterrupt, SystemExit, GeneratorExit), StopIteration, an exception
+that cannot be instantiated, one whose __str__ raises; re-enter the C caller (nested
+invocation whose inner body raises)}.
 
 The caller is compiled C (in the same module as the extern "Python" trampolines): it
 takes its arguments from constant tables generated from B(A), calls the function
 pointer / the extern "Python" function and stores the raw bytes it received.  It is
 invoked through ctypes; the tables' values and the expected encodings of results are
-computed in Python/ctypes/gcc without cffi.
+computed in Python/ctypes/gcc without cffi.  The tables of wchar_t / char32_t / _Bool also
+hold objects without a Python counterpart (not a code point; a _Bool byte of 2 or 255).
+
+Supplements: _c14_complex (complex arguments/results of extern "Python" functions) and
+_c14_structs (every by-value struct shape of C13's struct space as argument and as result
+of a callback and of an extern "Python" function).
 
 Oracle: (1) the Python function was invoked exactly once and saw exactly the table's
-values; (2) C received the encoding of r if r is convertible, else the error value
-(zero-filled / error= / onerror's value); (3) no exception propagates to the code that
-called the C caller; sys.unraisablehook fires exactly in the error cases without
+values (an argument without Python counterpart: the function need not be invoked, the call
+is then an error case); (2) C received the encoding of r if r is convertible, else the
+error value (zero-filled / error= / onerror's value); (3) no exception propagates to the
+code that called the C caller; sys.unraisablehook fires exactly in the error cases without
 onerror, onerror is called exactly once in the error cases with onerror.
 """
 import collections
@@ -42,13 +57,23 @@ META = dict(
               "a compiled C caller (driven through ctypes) passes table values and records the raw bytes it receives",
     text="Every unary signature over 24 argument x 25 result types (all integer types, _Bool, char, wchar_t, float, "
          "double, long double, 3 pointer types, 4 by-value structs, a by-value union, void), nullary, binary (8-type "
-         "subset) and 6-argument signatures is instantiated as ffi.callback (compiled and in-line FFI) and as extern "
-         "\"Python\"+@def_extern under 6 error configurations; a C caller feeds every in-range boundary value of each "
-         "argument type, the Python body returns every element of the result alphabet (in range, out of range, wrong "
-         "type, partial initialiser) or raises.  Arguments seen, bytes received by C, containment of the exception, "
+         "subset), 6-argument and 12-22-argument signatures, and 15 further types (enums, typedef/stdint integer names, "
+         "char16_t, char32_t, void *, char **, function pointer) are instantiated through 8 mechanism spellings "
+         "(ffi.callback of a compiled and of an in-line FFI in direct and decorator form, extern \"Python\" / "
+         "\"Python+C\" with def_extern(name=) and by __name__, callables whose repr() raises) under 11 error "
+         "configurations (none, error=, onerror returning None / a value / an unconvertible value / a half-convertible "
+         "initialiser, onerror raising); a C caller feeds every in-range boundary value of each argument type (and "
+         "wchar_t/char32_t/_Bool objects that have no Python counterpart), the Python body returns every element of the "
+         "result alphabet (in range, out of range, wrong type, cdata of the same/wider/other type, __int__/__float__ "
+         "objects, partial and half-convertible initialisers), raises one of 7 kinds of exception or re-enters the C "
+         "caller.  Every by-value struct shape of C13's struct space (all field sequences up to length 2, thorough 3, over "
+         "22 field kinds) is passed to and returned from a callback and an extern \"Python\" function, with raise / "
+         "unconvertible / error= / onerror cases.  Arguments seen, bytes received by C, containment of the exception, "
          "unraisablehook and onerror invocations are compared with an independent model.",
     note="expected values come from Python/ctypes/gcc, never from cffi; result-widening to ffi_arg is invisible on "
-         "x86-64 (libffi's closure return path re-extends from the first bytes), so it is not judged")
+         "x86-64 (libffi's closure return path re-extends from the first bytes), so it is not judged; struct results of "
+         "the shape supplement are compared through a C-side weighted checksum of all leaves; a struct with a long "
+         "double leaf is outside the alphabet; quick about 45 s, thorough about 3 min on the idle 16-core machine")
 
 UNION_DECL = "union u1 { int i; double d; char c[3]; };\ntypedef int (*fp_t)(int);\n"
 PTRS = ["char *", "int *", "struct s3 *"]
@@ -704,12 +729,12 @@ CONFIGS = ["none", "error", "onerror-none", "onerror-none+error", "onerror-value
 MECHS = ["callback", "callback-inline", "extern-python", "callback-decorator", "callback-inline-direct",
          "extern-python-byname", "callback-badrepr", "extern-python-badrepr"]
 QUICK_CONFIGS = {      # quick tier: the spellings share the C entry points of "callback" / "extern-python"
-    "callback-inline": ("none", "onerror-value+error"),
-    "callback-decorator": ("none", "onerror-value+error"),
-    "callback-inline-direct": ("none", "onerror-value+error"),
-    "extern-python-byname": ("none", "onerror-value+error"),
-    "callback-badrepr": ("none", "error", "onerror-raises"),            # where the message with %R is built
-    "extern-python-badrepr": ("none", "error", "onerror-raises"),
+    "callback-inline": ("none", "onerror-value+error"),         # other ctype objects: whole argument / result sweep
+    "callback-decorator": ("error", "onerror-value+error"),     # keyword arguments must arrive; error paths
+    "callback-inline-direct": ("error", "onerror-value+error"),
+    "extern-python-byname": ("error", "onerror-value+error"),
+    "callback-badrepr": ("error", "onerror-raises"),            # where the message with %R is built
+    "extern-python-badrepr": ("error", "onerror-raises"),
 }
 # what the Python body raises: an ordinary Exception, BaseExceptions that are not Exceptions, an exception whose
 # class cannot be instantiated (the raise statement fails with another exception), one whose __str__/__repr__ raise
@@ -1130,7 +1155,8 @@ def work(item):
                 res["skipped_union_libffi"] += 1
                 continue
             for cfg in CONFIGS:
-                if tier == "quick" and cfg not in QUICK_CONFIGS.get(mech, CONFIGS):
+                if tier == "quick" and cfg not in (QUICK_CONFIGS.get(mech, CONFIGS) if R != "void" or mech not in QUICK_CONFIGS
+                                                   else ("none", "onerror-raises")):
                     continue                 # same C entry point as "callback"; only the Python wrapper differs
                 if R == "void" and "error" in cfg.replace("onerror", ""):
                     continue                 # error= is not allowed for void results
@@ -1169,8 +1195,8 @@ def work(item):
                                 sgn = {"kind": kind, "mech": mech, "args": "-", "cfg": cfg, "ret": R, "body": label}
                             if cfg.startswith("onerror-bad") and kind == "result-bytes":
                                 # onerror returned something unconvertible: own root cause, own signature
-                                sgn["onerror_returns"] = "unconvertible"
-                                sgn["result_kind"] = kind_of(R)
+                                sgn = {"kind": kind, "mech": mech, "cfg": cfg, "onerror_returns": "unconvertible",
+                                       "result_kind": kind_of(R)}
                             ent = res["bad"].setdefault(repr(sorted(sgn.items())), [sgn, 0, []])
                             ent[1] += 1
                             if len(ent[2]) < 2:
@@ -1225,6 +1251,17 @@ def signatures(tier):
     return sigs
 
 
+def _phase1(item):
+    what, arg = item
+    if what == "build":
+        return build_module(arg)
+    if what == "cx":
+        from . import _c14_complex as CX
+        return CX.work(arg[1])
+    from . import _c14_structs as ST
+    return ST.work(arg)
+
+
 def run(ctx):
     model()
     import cffi
@@ -1235,16 +1272,71 @@ def run(ctx):
         sigs = signatures(ctx.tier)
         per = 64
         blocks = [sigs[i:i + per] for i in range(0, len(sigs), per)]
-        ctx.log("%d signatures in %d modules" % (len(sigs), len(blocks)))
+        from . import _c14_complex as CX
+        from . import _c14_structs as ST
+        from . import _c13_structs as SS
+        space = SS.struct_space(2 if ctx.quick else 3)
+        sblocks = [(i, list(b)) for i, b in enumerate(pool.chunks(space, 40 if ctx.quick else 110))]
+        for st in space:
+            for c in SS.classify(st):
+                ctx.count("struct_shape/" + c)
+        ctx.log("%d signatures in %d modules; %d by-value struct shapes in %d modules" % (
+            len(sigs), len(blocks), len(space), len(sblocks)))
+        cx_sigs = CX.signatures()
+        groups = [(True, [g for g in cx_sigs if "dc" in g[1]]), (False, [g for g in cx_sigs if "dc" not in g[1]])]
+        # phase 1 (one pool): compile the signature modules; meanwhile the two self-contained supplements run --
+        # complex arguments / results of extern "Python" functions (libffi callbacks cannot have them) and the
+        # by-value struct shapes
         built = {}
         tcomp = 0.0
-        for item, r in pool.pmap(build_module, [[("%d_b%d" % (os.getpid(), i), b)] for i, b in enumerate(blocks)],
-                                 item_timeout=900):
-            if isinstance(r, (pool.WorkerError, pool.Crash)):
-                raise InfraError("building a test module failed: %r" % (r,))
-            built[r[0]] = (r[1], r[2])
-            tcomp += r[3]
-        ctx.log("modules compiled (%.1fs cpu-wall in total)" % tcomp)
+        n_cx = 0
+        st_tot = collections.Counter()
+        import json
+        allsigs = collections.Counter()
+        p1 = [[("cx", groups[0])]] + [[("build", ("%d_b%d" % (os.getpid(), i), b))] for i, b in enumerate(blocks)]
+        p1 += [[("cx", groups[1])]] + [[("st", b)] for b in sblocks]
+        for item, r in pool.pmap(_phase1, p1, item_timeout=1800):
+            what = item[0]
+            if what == "build":
+                if isinstance(r, (pool.WorkerError, pool.Crash)):
+                    raise InfraError("building a test module failed: %r" % (r,))
+                built[r[0]] = (r[1], r[2])
+                tcomp += r[3]
+                continue
+            if isinstance(r, pool.WorkerError):
+                raise InfraError(r.tb)
+            if what == "cx":
+                has_dc = item[1][0]
+                if isinstance(r, pool.Crash):
+                    ctx.violation({"kind": "crash", "mech": "extern-python", "args": "complex",
+                                   "double_complex_argument": has_dc},
+                                  {"complex": True, "how": r.describe(), "double_complex_argument": has_dc,
+                                   "note": "the module is built with -fstack-protector-all: a trampoline overran its buffer"})
+                    continue
+                n, cx_bad = r
+                n_cx += n
+                for kind, decl, info in cx_bad:
+                    ctx.violation({"kind": kind, "mech": "extern-python", "type": info.get("type"),
+                                   "double_complex_argument": has_dc},
+                                  {"complex": True, "decl": decl, "info": info})
+                continue
+            # by-value struct shapes
+            if isinstance(r, pool.Crash):
+                ctx.violation({"kind": "crash", "site": "struct-shapes"},
+                              {"structs": True, "block": [[k[0] for k in kinds] for kinds in item[1][1]], "how": r.describe()})
+                continue
+            for key in ("structs", "cases", "errors", "excluded_union_libffi"):
+                st_tot[key] += r[key]
+            for kind, mech, cname, keys, decl, info in r["bad"]:
+                sgn = {"kind": kind, "site": "struct-shapes", "mech": mech, "case": cname, "cfg": info.get("cfg"),
+                       "union_member": "un" in keys}
+                ctx.violation(sgn, {"structs": True, "kinds": keys, "decl": decl, "mech": mech, "case": cname,
+                                    "kind": kind, "info": info})
+                allsigs[json.dumps(sgn, sort_keys=True)] += 1
+                st_tot["bad"] += 1
+        ctx.count("struct_shapes/cases", st_tot["cases"])
+        ctx.count("struct_shapes/error-cases", st_tot["errors"])
+        ctx.log("modules compiled (%.1fs cpu-wall in total); supplements done" % tcomp)
         chunk = 6 if ctx.quick else 2
         items = []
         for i, b in enumerate(blocks):
@@ -1254,8 +1346,6 @@ def run(ctx):
         # big (6-argument) signatures first, then interleave the modules
         items.sort(key=lambda it: -sum(arg_index_count(sg) for sg in it[0][3]))
         tot = collections.Counter()
-        allsigs = collections.Counter()
-        import json
         for item, r in pool.pmap(work, items, item_timeout=1200):
             if isinstance(r, pool.WorkerError):
                 raise InfraError(r.tb)
@@ -1273,29 +1363,15 @@ def run(ctx):
                     ctx.violation(sgn, det)
                 allsigs[json.dumps(sgn, sort_keys=True)] += cnt
         ctx.log("cpu-wall: %.1fs loading modules, %.1fs executing cases" % (tot["t_build"], tot["t_run"]))
-        # complex arguments / results of extern "Python" functions (libffi callbacks cannot have them)
-        from . import _c14_complex as CX
-        cx_sigs = CX.signatures()
-        n_cx = 0
-        groups = [(False, [g for g in cx_sigs if "dc" not in g[1]]), (True, [g for g in cx_sigs if "dc" in g[1]])]
-        for (has_dc, sg), r in pool.pmap(lambda it: CX.work(it[1]), [[g] for g in groups], item_timeout=900):
-            if isinstance(r, pool.WorkerError):
-                raise InfraError(r.tb)
-            if isinstance(r, pool.Crash):
-                ctx.violation({"kind": "crash", "mech": "extern-python", "args": "complex",
-                               "double_complex_argument": has_dc},
-                              {"complex": True, "how": r.describe(), "double_complex_argument": has_dc,
-                               "note": "the module is built with -fstack-protector-all: a trampoline overran its buffer"})
-                continue
-            n, cx_bad = r
-            n_cx += n
-            for kind, decl, info in cx_bad:
-                ctx.violation({"kind": kind, "mech": "extern-python", "type": info.get("type"),
-                               "double_complex_argument": has_dc},
-                              {"complex": True, "decl": decl, "info": info})
+        tot["cases"] += st_tot["cases"]
+        tot["nontrivial"] += st_tot["errors"]
+        tot["nbad"] += st_tot["bad"]
         tot["cases"] += n_cx
         cov = {
             "complex_signatures_extern_python": n_cx,
+            "by_value_struct_shapes": st_tot["structs"],
+            "by_value_struct_shape_cases": st_tot["cases"],
+            "by_value_struct_shapes_with_union_member_refused_by_libffi": st_tot["excluded_union_libffi"],
             "evaluations": tot["cases"],
             "distinct_nontrivial": tot["nontrivial"],
             "signatures": tot["nsig"],
@@ -1304,16 +1380,25 @@ def run(ctx):
             "excluded_union_by_value_through_libffi": tot["skipped_union_libffi"],
             "failing_cases": tot["nbad"],
             "failing_checks_by_signature": dict(sorted(allsigs.items())),
-            "rule": "every signature x 3 mechanisms x 6 error configurations (void: 3); per instance: %s; every case "
-                    "checks invocation count, arguments seen, bytes received by C, escape, unraisablehook and onerror "
-                    "counts; non-trivial = the body raised or returned an unconvertible value (error containment "
-                    "exercised)" % ("the full product of argument tuples x result alphabet (+ raise) for unary signatures "
-                                    "under 'none' and 'error', sweeps elsewhere" if not ctx.quick else
-                                    "one sweep over all argument tuples (configuration 'none') and one sweep over the "
-                                    "whole result alphabet + raise (every configuration)"),
+            "rule": "every signature x %d mechanisms (3 ways to attach the function + 3 spellings + 2 with a callable whose "
+                    "repr() raises%s) x %d error configurations (void: 5; onerror-badinit only for struct/union results); "
+                    "per instance: %s; %d kinds of raising bodies and 2 re-entrant (nested) invocations per instance; "
+                    "argument tables include wchar_t/char32_t values that are no code points and _Bool bytes 2/255 "
+                    "(function cannot be called); every case checks invocation count, arguments seen, bytes received by "
+                    "C, escape, unraisablehook and onerror counts.  By-value struct shapes: every struct of the space x "
+                    "{callback, extern \"Python\"} x %d cases (argument seen leaf by leaf, result checksummed by C, "
+                    "raise / unconvertible / error= / onerror).  non-trivial = the body raised, returned an unconvertible "
+                    "value or could not be called (error containment exercised)" % (
+                        len(MECHS), "; the spellings only under 2-3 configurations" if ctx.quick else "", len(CONFIGS),
+                        "the full product of argument tuples x result alphabet (+ raising bodies, nested) for unary and "
+                        "extended-type signatures under 'none' and 'error', sweeps elsewhere" if not ctx.quick else
+                        "one sweep over all argument tuples (configuration 'none') and one sweep over the "
+                        "whole result alphabet + raise (every configuration)", len(RAISES), len(ST.CASES)),
             "exhaustive": True,
             "bound": {"unary": "%d x %d types" % (len(T_ARGS), len(T_RETS)), "nullary": len(T_RETS), "binary": "8 x 8",
-                      "six_args": 3, "product_args_x_results": not ctx.quick},
+                      "six_args": 3, "extended_types": "%d types x 3 signatures" % len(X_TYPES), "wide_signatures": 4,
+                      "max_arity": max(len(sg[3]) for sg in sigs), "struct_shapes_max_fields": 2 if ctx.quick else 3,
+                      "product_args_x_results": not ctx.quick},
         }
         return ctx.finish(cov, [
             "the C caller is gcc-compiled code inside the generated module and is invoked through ctypes (GIL released)",
@@ -1327,6 +1412,9 @@ def run(ctx):
 
 
 def replay(detail):
+    if detail.get("structs"):
+        from . import _c14_structs as ST
+        return ST.replay(detail)
     if detail.get("complex"):
         from . import _c14_complex as CX
         n, bad = CX.work(CX.signatures())
